@@ -40,6 +40,7 @@ def run(ctx: Ctx) -> None:
     tableau.rule_phase_combine(ctx)
     tableau.rule_measure_rowset(ctx)
     tableau.rule_outcome_used(ctx)
+    tableau.rule_basis_restored(ctx)
     tableau.rule_keep_complement(ctx, [gatesum.SSTATE])
     gatesum.rule_derived_gates(ctx)
     from .c11 import rule_reverse_table
@@ -72,6 +73,8 @@ def rule_wrappers(ctx: Ctx) -> None:
 
 
 KNOCKOUTS = [
+    Knockout("measure-x-not-rotated-back", CLIFF, sub_once("    # rotate back: the gates act in place on the caller's tableau\n    hadamard_gate(stabilizer_state_new, qubit_position)\n", ""), "measure.basis-restored", "measure_x"),
+    Knockout("measure-y-rotated-back-with-wrong-phase", CLIFF, sub_once("    phase_gate(new_tableau, qubit_position)\n    return outcome", "    phase_dagger_gate(new_tableau, qubit_position)\n    return outcome"), "measure.basis-restored", "measure_y"),
     Knockout("trace-out-passes-removal-as-keep", gatesum.SSTATE, sub_nth("keep=[q for q in range(self.n_qubits) if q not in qubit_positions],", "keep=qubit_positions,", 0), "trace.keep-complement", "Stabilizer.trace_out_qubits"),
     Knockout("reset-z-overwrites-sign-on-random-outcome", CLIFF, sub_once("    tableau, outcome, _ = z_measurement_gate(\n        tableau, qubit_position, measurement_determinism\n    )\n", "    tableau, outcome, probabilistic = z_measurement_gate(\n        tableau, qubit_position, measurement_determinism\n    )\n    if probabilistic:\n        tableau.phase[probabilistic] = intended_state\n        return tableau\n"), "measure.outcome-used", "a path ignores"),
     Knockout("swap-gate-moves-sign-rows", CLIFF, sub_once("    # the phase vectors belong to the generators (rows), which a qubit swap does not permute\n", "    rows1 = [qubit1, qubit1 + n_qubits]\n    rows2 = [qubit2, qubit2 + n_qubits]\n    for vector in (tableau.phase, tableau.iphase):\n        vector[rows1 + rows2] = vector[rows2 + rows1]\n"), "num.rowcol", "swap_gate"),
